@@ -495,17 +495,18 @@ func DescsDir(up bool) []*CmdDesc {
 // specification defines for it.
 func (f Field) MustAccept(v int64) bool {
 	if f.Freq {
-		if v < 0 || v%100 != 0 {
+		// what the specification obliges an encoder to take: 0 (unused /
+		// disable) and multiples of 100 Hz from 100 MHz up to the end of the
+		// 24-bit field ("values representing frequencies below 100 MHz are
+		// reserved"). NewChannelReq's 2.4 GHz extension (raw values >= 12 000 000
+		// in 200 Hz steps) is this library's own: a library that drops or moves
+		// it may refuse those values - whatever IS accepted must still come
+		// back unchanged (lossless-or-error is judged for every value).
+		if v < 0 || v%100 != 0 || (v > 0 && v < 100000000) {
 			return false
 		}
 		if f.Freq24 {
-			// NewChannelReq with the 2.4 GHz extension: raw values >= 12 000 000
-			// mean 200 Hz steps, so 100 Hz-step frequencies are representable
-			// below 1.2 GHz only; 1.2-2.4 GHz is not representable at all
-			if v/100 < 12000000 {
-				return true
-			}
-			return v >= 2400000000 && v%200 == 0 && v/200 < 1<<24
+			return v/100 < 12000000
 		}
 		return v/100 < 1<<24
 	}
@@ -680,6 +681,12 @@ func FromLibCmd(up bool, mc *lorawan.MACCommand) (Cmd, bool) {
 		return c, true
 	}
 	d := Desc(up, byte(mc.CID))
+	if d != nil && d.Size == 0 && mc.Payload != nil {
+		// a payload-less command may carry a typed empty payload
+		if b, err := mc.Payload.MarshalBinary(); err == nil && len(b) == 0 {
+			return c, true
+		}
+	}
 	if d == nil || d.FromLib == nil {
 		return c, false
 	}
